@@ -23,6 +23,7 @@ func runC09(c *an.Ctx) {
 	r09c(c)
 	// shared with C08: a pending (possibly critical, possibly failing) call must not be forgotten before it is awaited
 	pendingResetRule(c, "R09d")
+	pendingMutationRule(c, "R09e")
 }
 
 // envCallbacks resolves the four FSM callback closures of the environment by their constant map
